@@ -352,10 +352,15 @@ func (au *audition) checkEvent(ctx context.Context, final bool, ev sigEvent) err
 	// auditors in the loop.
 	for _, audienceName := range au.cfg.audienceNames {
 		as, ok := au.st.auditorStates[audienceName]
-		if !ok || !as.activated {
-			// audience still dormant: not interested.
+		if !ok {
+			// not an auditor.
 			continue
 		}
+		// Every auditor is visited in every round, also those none of
+		// whose variables were assigned in this round: the dependency
+		// checks on each expression decide what gets evaluated. Otherwise
+		// an auditor that only mentions signals never sees the start of
+		// a "throughout" period nor the end of the play.
 		am := au.cfg.audience[audienceName]
 		auCtx := logtags.AddTag(ctx, "auditor", audienceName)
 		if err := au.checkEventForAuditor(auCtx, as, am, final, ev); err != nil {
